@@ -11,6 +11,10 @@ def run(chk):
                 "non-trivial = some op made at least two change_track attempts; distinct by op sequence")
     core_check.run_core(chk, "C04", [("faults", 6), ("schedule", 2), ("tracklist", 1)], ["Property_C04.v"])
     if not chk.replay:
+        # provider methods failing outside the modelled environment: every request still ends
+        import core_faulty
+
+        core_faulty.run_stage(chk, "C04", contained=False)
         # the single core thread with real actors around it: a listener that needs the core while the
         # core serves a request must never make that request wait (shared stage of the Actors area)
         import c18_shared
